@@ -106,6 +106,10 @@ def respond (line : String) : String :=
     match parseRat? x with
     | some r => "ok " ++ hex6 (Format.fmtGbp r).toList
     | none => "bad-request"
+  | ["fmtcur", code, minor, x] =>
+    match minor.toNat?, parseRat? x with
+    | some k, some r => "ok " ++ hex6 (Format.fmtCurrencyAmount code k r).toList
+    | _, _ => "bad-request"
   | ["jsonmoney", lit] =>
     -- decimal literal with optional sign: the scale is the number of fraction digits written
     let neg := lit.startsWith "-"
